@@ -275,6 +275,16 @@ def discharge(ob: Obligation, want_model: bool = True, second_opinion: bool = Fa
             ob.status = "proved"
             ob.detail = "sat" if r == z3.sat else "not shown unsat"
         return
+    if z3.is_false(ob.goal) and not any(c is False for c in ob.pc):
+        # the clause is structurally false on this path (a list of the wrong shape, a frame handed on twice, ...): what is
+        # left to decide is whether the path is reachable - the same question as for a precondition's cover check
+        m0 = small_scope([c for c in ob.pc if c is not True], 3000, (1, 2, 3))
+        if m0 is not None:
+            ob.status = "refuted"
+            ob.backend = "z3-5.1.0 (clause structurally false; path shown reachable by a small-scope witness)"
+            ob.model = m0
+            ob.ms = (time.time() - t0) * 1000
+            return
     s.add(z3.Not(ob.goal))
     # NB: Solver.assertions() may hand back proxy literals (k!N) instead of the formulas; keep our own list
     assertions = [c for c in ob.pc if c is not True and c is not False] + [z3.Not(ob.goal)]
